@@ -3,7 +3,7 @@
    Ok k  =>  ||b - A x||_2 <= tol * ||b||'   as an inequality between reals. *)
 From Coq Require Import List Arith Lia Reals Lra.
 From OV Require Import Base.Panic Base.Arith Model.Vector Model.Matrix Model.Sparse Model.Iter
-  Proofs.SparseBase Proofs.SparseMul Proofs.Iter Proofs.IterField Proofs.IterR Proofs.IterSparse.
+  Proofs.SparseBase Proofs.SparseMul Proofs.Iter Proofs.IterField Proofs.IterR Proofs.IterSparse Proofs.IterSparseErr.
 Import ListNotations.
 Local Open Scope R_scope.
 
@@ -30,4 +30,24 @@ Proof.
   repeat split; try reflexivity.
   - intros j Hj. do 2 (destruct j as [|j]; [cbn [nth Nat.add]; lia|]). lia.
   - intros k Hk. do 4 (destruct k as [|k]; [cbn [nth]; lia|]). lia.
+Qed.
+
+Lemma R_leb_false' (x y : R) : R_leb x y = false -> y < x.
+Proof. unfold R_leb. destruct (Rle_dec x y); [discriminate | lra]. Qed.
+Lemma R_ltb_false (x y : R) : R_ltb x y = false -> y <= x.
+Proof. unfold R_ltb. destruct (Rlt_dec x y); [discriminate | lra]. Qed.
+
+(* Err(e): e IS the true relative residual ||b - A x|| / ||b||' of the returned x, and a run that exhausted its
+   budget reports a value that is not below tol *)
+Theorem run_sparse_err_true_residual_R sv (s : sparse AR) (b x0 : list R) max (tol : R) e x g : wfS s ->
+  @run_sparse SAR sv s b x0 max tol = Ok (IErr e, x, g) ->
+  e = @norm2 SAR (@zipw AR Rminus b (@sp_apply AR s x)) * / @nz SAR (@norm2 SAR b) /\
+  (g_exit g = 2%nat -> tol <= e).
+Proof.
+  intros Hwf H.
+  destruct (@run_sparse_err_true_residual SAR AR_FieldLaws sv s b x0 max tol e x g Hwf H) as (Ed & Ht).
+  apply R_div_Ok in Ed as (_ & ->). split; [reflexivity|].
+  intros Hx. destruct (Ht Hx) as [Hl|Hl].
+  - apply R_leb_false' in Hl. lra.
+  - apply R_ltb_false in Hl. exact Hl.
 Qed.
